@@ -4,9 +4,9 @@ package main
 // A store to one field frames every other field for free.
 
 import (
-	"strings"
 	"fmt"
 	"go/types"
+	"strings"
 )
 
 func (c *Ctx) heapArr(st *State, k, sort string) string {
